@@ -98,6 +98,126 @@ Proof.
 Qed.
 
 
+(** ** The cursor of the recompute heap points at a non-empty bucket ([Heap.sanity], not part of
+    [HeapSpec.inv]) *)
+Definition cursor_ok (w : Heap.t) : Prop :=
+  0 < Heap.cnt w -> Heap.bucket w (Z.to_nat (Heap.minH w)) <> [].
+
+Lemma add_shape w n h w' : Heap.add w n h = Ok w' ->
+  0 <= h /\ Heap.cnt w' = Heap.cnt w + 1 /\
+  Heap.minH w' = (if Heap.cnt w =? 0 then h else Z.min (Heap.minH w) h) /\
+  forall y, Heap.bucket w' y = if decide (y = Z.to_nat h) then Heap.bucket w (Z.to_nat h) ++ [n] else Heap.bucket w y.
+Proof.
+  unfold Heap.add. destruct (Z.ltb_spec h 0) as [|Hh]; [discriminate|].
+  destruct (if Heap.cnt w =? 0 then (h, h) else (Z.min (Heap.minH w) h, Z.max (Heap.maxH w) h)) as [mn mx] eqn:Emm.
+  intros [= <-]. split; [exact Hh|]. split; [reflexivity|]. split.
+  - cbn. destruct (Heap.cnt w =? 0); injection Emm as <- _; reflexivity.
+  - intros y. set (hn := Z.to_nat h). set (g := grow (Heap.buckets w) hn).
+    destruct (grow_length (Heap.buckets w) hn) as [Hg1 Hg2]. fold g in Hg1, Hg2.
+    assert (Hgbk : forall y, bk g y = Heap.bucket w y) by (intros z; apply bk_grow).
+    destruct (lookup_lt_is_Some_2 g hn Hg1) as [b0 Hb0].
+    assert (Eb0 : b0 = Heap.bucket w hn) by (rewrite <- Hgbk; symmetry; apply bk_lookup, Hb0).
+    unfold Heap.bucket at 1; cbn [Heap.buckets]. fold hn. fold g.
+    fold (bk (<[hn:=default [] (g !! hn) ++ [n]]> g) y).
+    rewrite (bk_insert _ _ _ _ Hg1). rewrite Hgbk. rewrite Hb0. simpl. rewrite Eb0. reflexivity.
+Qed.
+
+Lemma cursor_add w n h w' : HeapSpec.inv w -> cursor_ok w -> Heap.add w n h = Ok w' -> cursor_ok w'.
+Proof.
+  intros I C H. destruct (add_shape _ _ _ _ H) as (Hh & Hc & Hm & Hb). intros _.
+  rewrite Hm, Hb. pose proof (cnt_nonneg w I) as Hcn.
+  destruct (Z.eqb_spec (Heap.cnt w) 0) as [E0|E0].
+  - rewrite decide_True by reflexivity. intros E. apply app_eq_nil in E as [_ E]. discriminate.
+  - assert (Hpos : 0 < Heap.cnt w) by lia. destruct (inv_cursor w I Hpos) as (C1 & _).
+    destruct (decide (Z.to_nat (Z.min (Heap.minH w) h) = Z.to_nat h)) as [E|E].
+    + intros E'. apply app_eq_nil in E' as [_ E']. discriminate.
+    + assert (Z.min (Heap.minH w) h = Heap.minH w) as -> by lia. apply C, Hpos.
+Qed.
+
+Lemma cursor_removeMin w n w' : HeapSpec.inv w -> Heap.removeMin w = Some (n, w') -> cursor_ok w'.
+Proof.
+  intros I H. destruct (heap_removeMin_spec w n w' I H) as (_ & I' & _ & _).
+  unfold Heap.removeMin in H.
+  destruct (Z.leb_spec (Heap.cnt w) 0) as [|Hpos]; [discriminate|].
+  destruct (inv_cursor w I Hpos) as (C1 & C2 & C3).
+  pose proof (scan_drop_spec (Heap.buckets w) (Z.to_nat (Heap.minH w))) as S.
+  destruct (scan_from _ _) as [x|]; [|discriminate].
+  destruct S as (S1 & S2 & S3).
+  destruct (Z.of_nat x <=? Heap.maxH w); [|discriminate].
+  destruct (bk_nonempty_lookup _ _ S2) as (b & Elk & _).
+  assert (Eb : Heap.bucket w x = b) by (apply bk_lookup, Elk).
+  rewrite Eb in H. destruct b as [|n0 b']; [discriminate|].
+  injection H as Hn Hw. subst n0.
+  assert (Hlen : (x < length (Heap.buckets w))%nat) by (eapply lookup_lt_Some; eauto).
+  assert (Hleast : forall y, Heap.bucket w y <> [] -> (x <= y)%nat).
+  { apply (scan_least w (Z.to_nat (Heap.minH w))); auto. lia. }
+  set (bs := <[x:=b']> (Heap.buckets w)) in *.
+  assert (Hbk : forall y, Heap.bucket w' y = if decide (y = x) then b' else Heap.bucket w y).
+  { intros y. subst w'. unfold Heap.bucket at 1. cbn [Heap.buckets]. fold (bk bs y). unfold bs.
+    apply (bk_insert _ _ _ _ Hlen). }
+  intros Hpos'.
+  assert (Hmin : Heap.minH w' = match b' with [] => nextMinFrom bs (Heap.cnt w - 1) (Z.of_nat x + 1) | _ => Z.of_nat x end)
+    by (subst w'; reflexivity).
+  assert (Hcnt : Heap.cnt w' = Heap.cnt w - 1) by (subst w'; reflexivity).
+  rewrite Hmin, Hbk. destruct b' as [|n1 b''].
+  - unfold nextMinFrom. destruct (Z.eqb_spec (Heap.cnt w - 1) 0) as [E0|_]; [lia|].
+    pose proof (scan_drop_spec bs (Z.to_nat (Z.max 0 (Z.of_nat x + 1)))) as S'.
+    destruct (scan_from _ _) as [x'|].
+    + destruct S' as (T1 & T2 & _). rewrite Nat2Z.id.
+      assert (x' <> x) by lia. rewrite decide_False by assumption.
+      unfold bs in T2. rewrite (bk_insert _ _ _ _ Hlen), decide_False in T2 by assumption. exact T2.
+    + exfalso. assert (Hne : Heap.ids w' <> []).
+      { intros E. pose proof (inv_cnt w' I') as Hc. rewrite E in Hc. simpl in Hc. lia. }
+      destruct (ids_nonempty_bucket w' Hne) as [y Hy]. rewrite Hbk in Hy.
+      destruct (decide (y = x)) as [->|Hyx]; [congruence|].
+      pose proof (Hleast y Hy). apply Hy.
+      specialize (S' y). unfold bs in S'. rewrite (bk_insert _ _ _ _ Hlen), decide_False in S' by assumption.
+      apply S'. lia.
+  - rewrite Nat2Z.id, decide_True by reflexivity. discriminate.
+Qed.
+
+Lemma heap_inv_b_complete w : HeapSpec.inv w -> cursor_ok w -> heap_inv_b w = true.
+Proof.
+  intros I C. pose proof (inv_nodup _ I) as Hnd. pose proof (inv_cnt _ I) as Hcnt.
+  assert (Hb : forall n x, n ∈ Heap.bucket w x -> Heap.hinOf w n = Z.of_nat x)
+    by (intros; apply hinOf_bucket; assumption).
+  assert (Hin : forall n, n ∈ Heap.ids w -> exists x, n ∈ Heap.bucket w x) by (intros n; apply elem_ids).
+  unfold heap_inv_b. rewrite !andb_true_iff. repeat split.
+  - apply bool_decide_eq_true. exact Hnd.
+  - apply Z.eqb_eq. exact Hcnt.
+  - unfold Heap.sanity. apply andb_true_iff. split.
+    + destruct (0 <? Heap.cnt w) eqn:Hp; [|reflexivity]. apply Z.ltb_lt in Hp.
+      destruct (inv_cursor _ I Hp) as (H0 & _).
+      apply andb_true_iff. split; [|apply Z.leb_le; exact H0].
+      apply negb_true_iff, bool_decide_eq_false. apply C, Hp.
+    + apply forallb_intro. intros [x b] Hxb. apply elem_of_lookup_imap in Hxb as (i & b0 & [= -> ->] & Hl).
+      apply forallb_intro. intros n Hn. apply Z.eqb_eq. apply Hb. unfold Heap.bucket. rewrite Hl. exact Hn.
+  - apply forallb_intro. intros n Hn. apply negb_true_iff, Z.eqb_neq. destruct (Hin n Hn) as [x Hx].
+    rewrite (Hb n x Hx). unfold unset. lia.
+  - apply bool_decide_eq_true. apply NoDup_Permutation.
+    + apply NoDup_map_to_list.
+    + apply NoDup_fmap_2; [|exact Hnd]. intros a b [= ->]. reflexivity.
+    + intros [n z]. rewrite elem_of_map_to_list, elem_of_list_fmap, (inv_hin w I n z). split.
+      * intros [Hz Hbz]. exists n. split; [|apply elem_ids; eauto]. f_equal. rewrite (Hb n _ Hbz). lia.
+      * intros (n' & [= -> ->] & Hn'). destruct (Hin n' Hn') as [x Hx]. rewrite (Hb n' x Hx).
+        split; [lia|]. rewrite Nat2Z.id. exact Hx.
+  - destruct (0 <? Heap.cnt w) eqn:Hp; [|reflexivity]. apply Z.ltb_lt in Hp.
+    destruct (inv_cursor _ I Hp) as (H0 & Hbk & Hmx). rewrite !andb_true_iff. repeat split.
+    + apply Z.leb_le. exact H0.
+    + apply Z.ltb_lt. exact Hmx.
+    + apply forallb_intro. intros n Hn. destruct (Hin n Hn) as [x Hx]. rewrite (Hb n x Hx).
+      assert (Heap.bucket w x <> []) as Hne by (intros E; rewrite E in Hx; inversion Hx).
+      specialize (Hbk x Hne). apply andb_true_iff. split; apply Z.leb_le; lia.
+Qed.
+
+Lemma heap_inv_b_cursor w : heap_inv_b w = true -> cursor_ok w.
+Proof.
+  unfold heap_inv_b. rewrite !andb_true_iff. intros [[[[[_ _] Hsan] _] _] _] Hpos.
+  unfold Heap.sanity in Hsan. apply andb_true_iff in Hsan as [Hs _].
+  assert (0 <? Heap.cnt w = true) as Hp by (apply Z.ltb_lt; exact Hpos). rewrite Hp in Hs.
+  apply andb_true_iff in Hs as [Hs _]. apply negb_true_iff, bool_decide_eq_false in Hs. exact Hs.
+Qed.
+
 (** * B. The bind-free fragment and the structural facts used below *)
 
 Lemma bf_b_sound s : bf_b s = true -> BF s.
@@ -119,48 +239,56 @@ Lemma dummy_fields :
   /\ recomputedAt dummy = 0 /\ changedAt dummy = 0 /\ observers dummy = [] /\ forceNec dummy = false.
 Proof. repeat split. Qed.
 
+Lemma bf_node_iff s n x : bf_node s n x = true <->
+  (n < next s)%nat /\ isBindKind (nkind x) = false /\ scope x = None /\ valid x = true /\
+  arity_ok x = true /\ cutalways_zero x = true /\ always_lt n x = true.
+Proof.
+  unfold bf_node. rewrite !andb_true_iff, Nat.ltb_lt, negb_true_iff, bool_decide_eq_true. tauto.
+Qed.
+
 Section BFfacts.
   Context (s : state) (HBF : BF s).
-
-  Lemma bf_has_lt n : has s n -> (n < next s)%nat.
-  Proof.
-    intros Hn. pose proof (proj2 HBF n _ (has_lookup _ _ Hn)) as H. unfold bf_node in H.
-    rewrite !andb_true_iff in H. destruct H as [[[[[H _] _] _] _] _]. apply Nat.ltb_lt in H. exact H.
-  Qed.
 
   Lemma bf_node_nd n : has s n -> bf_node s n (nd s n) = true.
   Proof. intros Hn. exact (proj2 HBF n _ (has_lookup _ _ Hn)). Qed.
 
+  Lemma bf_has_lt n : has s n -> (n < next s)%nat.
+  Proof. intros Hn. apply (bf_node_iff s n (nd s n)), bf_node_nd, Hn. Qed.
+
   Lemma bf_valid n : valid (nd s n) = true.
   Proof.
     destruct (decide (has s n)) as [Hn|Hn]; [|rewrite not_has_nd by exact Hn; reflexivity].
-    pose proof (bf_node_nd n Hn) as H. unfold bf_node in H. rewrite !andb_true_iff in H. tauto.
+    apply (bf_node_iff s n (nd s n)), bf_node_nd, Hn.
   Qed.
 
   Lemma bf_scope n : scope (nd s n) = None.
   Proof.
     destruct (decide (has s n)) as [Hn|Hn]; [|rewrite not_has_nd by exact Hn; reflexivity].
-    pose proof (bf_node_nd n Hn) as H. unfold bf_node in H. rewrite !andb_true_iff in H.
-    destruct H as [[[[_ H] _] _] _]. apply bool_decide_eq_true in H. exact H.
+    apply (bf_node_iff s n (nd s n)), bf_node_nd, Hn.
   Qed.
 
   Lemma bf_kind n : isBindKind (nkind (nd s n)) = false.
   Proof.
     destruct (decide (has s n)) as [Hn|Hn]; [|rewrite not_has_nd by exact Hn; reflexivity].
-    pose proof (bf_node_nd n Hn) as H. unfold bf_node in H. rewrite !andb_true_iff in H.
-    destruct H as [[[[[_ H] _] _] _] _]. apply negb_true_iff in H. exact H.
+    apply (bf_node_iff s n (nd s n)), bf_node_nd, Hn.
   Qed.
 
   Lemma bf_arity n : arity_ok (nd s n) = true.
   Proof.
     destruct (decide (has s n)) as [Hn|Hn]; [|rewrite not_has_nd by exact Hn; reflexivity].
-    pose proof (bf_node_nd n Hn) as H. unfold bf_node in H. rewrite !andb_true_iff in H. tauto.
+    apply (bf_node_iff s n (nd s n)), bf_node_nd, Hn.
   Qed.
 
   Lemma bf_cutalways n : cutalways_zero (nd s n) = true.
   Proof.
     destruct (decide (has s n)) as [Hn|Hn]; [|rewrite not_has_nd by exact Hn; reflexivity].
-    pose proof (bf_node_nd n Hn) as H. unfold bf_node in H. rewrite !andb_true_iff in H. tauto.
+    apply (bf_node_iff s n (nd s n)), bf_node_nd, Hn.
+  Qed.
+
+  Lemma bf_always_lt n : always_lt n (nd s n) = true.
+  Proof.
+    destruct (decide (has s n)) as [Hn|Hn]; [|rewrite not_has_nd by exact Hn; reflexivity].
+    apply (bf_node_iff s n (nd s n)), bf_node_nd, Hn.
   Qed.
 
   Lemma bf_allNodes n : n ∈ allNodes s <-> has s n.
@@ -467,6 +595,7 @@ Proof. reflexivity. Qed.
 Record clPost (l : list nid) (s : state) (held : option nid) (s' : state) (held' : option nid) : Prop := {
   cl_only : only_heap s s';
   cl_hinv : hinv (heap s');
+  cl_cur : cursor_ok (heap s) -> cursor_ok (heap s');
   cl_held : forall h, held' = Some h -> h ∉ Heap.ids (heap s');
   cl_mono : forall x, x ∈ Heap.ids (heap s) -> x ∈ Heap.ids (heap s');
   cl_mem : forall x, (x ∈ Heap.ids (heap s') \/ held' = Some x) <->
@@ -504,6 +633,8 @@ Proof.
     destruct (heapAdd_spec s h s2 I (proj2 (inHeap_false_iff s h I) Hhn) (heapAdd_ok_nonneg _ _ _ Ea) Ea)
       as (Ho & I2 & Hp & Hhin).
     assert (Hne : c <> h) by congruence.
+    assert (Hcur : cursor_ok (heap s) -> cursor_ok (heap s2)).
+    { intros C. apply heapAdd_inv in Ea as (w & Ew & ->). exact (cursor_add _ _ _ _ I C Ew). }
     constructor; auto.
     + intros h' [= <-]. rewrite Hp, elem_of_cons. tauto.
     + intros x Hx. rewrite Hp, elem_of_cons. tauto.
@@ -538,6 +669,7 @@ Proof.
     constructor.
     + eapply only_heap_trans; [apply P1|apply P2].
     + apply P2.
+    + intros C. apply P2, P1, C.
     + apply P2.
     + intros x Hx. apply P2, P1, Hx.
     + intros x. rewrite (cl_mem _ _ _ _ _ P2 x).
@@ -566,6 +698,7 @@ Definition tailR (s : state) (n : nid) : res (state * option err * option nid) :
 Record tailPost (s3 : state) (m : nid) (s' : state) (imm : option nid) : Prop := {
   tp_shape : exists w h, s' = (upd s3 m (set changedAt (fun _ => stabNum s3))) <| heap := w |> <| handlers := h |>;
   tp_hinv : hinv (heap s');
+  tp_cur : cursor_ok (heap s3) -> cursor_ok (heap s');
   tp_imm : forall c, imm = Some c -> c ∉ Heap.ids (heap s') /\ canRecomputeImmediately s' m c = true;
   tp_mono : forall x, x ∈ Heap.ids (heap s3) -> x ∈ Heap.ids (heap s');
   tp_mem : forall x, (x ∈ Heap.ids (heap s') \/ imm = Some x) <->
@@ -600,7 +733,7 @@ Proof.
   { rewrite Hnd4. apply (nd_upd_proj children). reflexivity. }
   assert (Hhe : forall x, height (nd s4 x) = height (nd s3 x)).
   { intros x. rewrite Hnd4. apply (nd_upd_proj height). reflexivity. }
-  rewrite Hch in P. destruct P as [Po Pi Ph Pmono Pm Pold Pnew]. rewrite Hheap4 in *.
+  rewrite Hch in P. destruct P as [Po Pi Pcur Ph Pmono Pm Pold Pnew]. rewrite Hheap4 in *.
   assert (E5' : s5 = (upd s3 m (set changedAt (fun _ => stabNum s3))) <| heap := heap s5 |> <| handlers := handlers s4 |>).
   { transitivity (s4 <| heap := heap s5 |>); [exact Po|]. rewrite E4.
     generalize (handlers s4). generalize (upd s3 m (set changedAt (fun _ => stabNum s3))).
@@ -632,6 +765,7 @@ Proof.
       constructor.
       * eauto.
       * rewrite Hh'. exact Pi.
+      * rewrite Hh'. exact Pcur.
       * intros c [= <-]. rewrite Hh', Hcan. split; [apply Ph; reflexivity|exact Ecan].
       * intros x Hx. rewrite Hh'. apply Pmono, Hx.
       * intros x. rewrite Hh', <- (Hown s' x Hn' Hk'). apply Pm'.
@@ -647,6 +781,7 @@ Proof.
       constructor.
       * eauto.
       * rewrite Hh'. exact I6.
+      * rewrite Hh'. intros C. apply heapAdd_inv in Ea as (w6 & Ew6 & ->). exact (cursor_add _ _ _ _ Pi (Pcur C) Ew6).
       * discriminate.
       * intros x Hx. rewrite Hh', Hp6, elem_of_cons. right. apply Pmono, Hx.
       * intros x. rewrite Hh', Hp6, elem_of_cons, <- (Hown s' x Hn' Hk'). pose proof (Pm' x) as M.
@@ -668,6 +803,7 @@ Proof.
     constructor.
     + eauto.
     + rewrite Hh'. exact Pi.
+    + rewrite Hh'. exact Pcur.
     + discriminate.
     + intros x Hx. rewrite Hh'. apply Pmono, Hx.
     + intros x. rewrite Hh', <- (Hown s' x Hn' Hk'). pose proof (Pm' x) as M.
@@ -736,6 +872,7 @@ Record stepPost (s : state) (m : nid) (s' : state) (imm : option nid) : Prop := 
   sp_has : forall n, has s' n <-> has s n;
   sp_fields : same_fields s s';
   sp_hinv : hinv (heap s');
+  sp_cur : cursor_ok (heap s) -> cursor_ok (heap s');
   sp_case : cutPost s m s' imm \/ runPost s m s' imm
 }.
 
@@ -748,7 +885,7 @@ Proof.
   intros Hm I P3 Hv Hev H. destruct P3 as [Po Ps Ph Pf Pheap Plog].
   assert (Hm3 : has s3 m) by (apply Ph; exact Hm).
   destruct (tailR_spec s3 m s' e imm ltac:(rewrite Pheap; exact I) H) as [-> T]. split; [reflexivity|].
-  destruct T as [(w & h & Es) Thinv Timm Tmono Tmem Told Tnew].
+  destruct T as [(w & h & Es) Thinv Tcur Timm Tmono Tmem Told Tnew].
   assert (Hnd : forall n, nd s' n = nd (upd s3 m (set changedAt (fun _ => stabNum s3))) n).
   { intros n. rewrite Es. reflexivity. }
   assert (Hk3 : stabNum s3 = stabNum s) by apply Pf.
@@ -767,6 +904,7 @@ Proof.
     rewrite has_upd. apply Ph.
   - rewrite Es. eapply same_fields_trans; [exact Pf|]. repeat split.
   - exact Thinv.
+  - exact Tcur.
   - right. constructor.
     + rewrite Hself. reflexivity.
     + rewrite Hself. exact Hv.
@@ -909,6 +1047,7 @@ Proof.
       * intros n. change (has s1 n <-> has s n). apply has_upd.
       * repeat split.
       * exact I.
+      * auto.
       * left. constructor; try reflexivity.
         -- exists c. rewrite ?D. cbn [hd]. split; [exact K|]. split; [exact Ecut|]. reflexivity.
         -- change (value (nd s1 m) = value (nd s m)). rewrite Hnd1. reflexivity.
@@ -1119,9 +1258,9 @@ Section Step.
     intros n x E. assert (Hn' : has s' n) by (exists x; exact E).
     assert (Hn : has s n) by (apply (sf_has _ _ F), Hn').
     rewrite <- (nd_lookup _ _ _ E). pose proof (bf_node_nd s HBF n Hn) as Hb.
-    unfold bf_node in *. rewrite !andb_true_iff in Hb. destruct Hb as [[[[[H1 H2] H3] H4] H5] H6].
-    rewrite (sf_next _ _ F), (sf_nkind _ _ F), (sf_scope _ _ F), (sf_valid _ _ F), H1, H2, H3, H4. simpl.
-    apply andb_true_iff. split.
+    apply bf_node_iff in Hb as (H1 & H2 & H3 & H4 & H5 & H6 & H7). apply bf_node_iff.
+    rewrite (sf_next _ _ F), (sf_nkind _ _ F), (sf_scope _ _ F), (sf_valid _ _ F).
+    repeat split; try assumption.
     - unfold arity_ok in *. rewrite (sf_nkind _ _ F), (sf_decl _ _ F). exact H5.
     - destruct (decide (n = m)) as [->|Hne]; [|rewrite (Hnd_ne n Hne); exact H6].
       unfold cutalways_zero in *. rewrite (sf_nkind _ _ F).
@@ -1132,6 +1271,7 @@ Section Step.
         pose proof (bf_arity s HBF m) as Har. unfold arity_ok in Har. rewrite K in Har.
         apply bool_decide_eq_true in Har. destruct (decl (nd s m)) as [|a [|]]; try discriminate Har.
         exact Hv.
+    - unfold always_lt in *. rewrite (sf_nkind _ _ F), (sf_decl _ _ F). exact H7.
   Qed.
 
   Local Lemma S_heap : HeapSpec.inv (heap s') /\
@@ -1482,7 +1622,8 @@ Lemma chain_LInv h0 base fuel : forall s n s' e at_,
   recomputeChain fuel [] s n = Ok (s', e, at_) ->
   e = None /\ LInv h0 base s' None /\ sframe s s' /\
   (forall x, isDone s' x = true -> isDone s x = true \/ x = n \/ isAlways (nkind (nd s x)) = false) /\
-  (forall x, isDone s' x = false -> nd s' x = nd s x /\ isDone s x = false).
+  (forall x, isDone s' x = false -> nd s' x = nd s x /\ isDone s x = false) /\
+  (cursor_ok (heap s) -> cursor_ok (heap s')).
 Proof.
   induction fuel as [|fuel IH]; intros s n s' e at_ HS L H; [discriminate|].
   cbn [recomputeChain] in H.
@@ -1498,9 +1639,10 @@ Proof.
   assert (Hu1 : forall x, isDone s1 x = false -> nd s1 x = nd s x /\ isDone s x = false).
   { intros x Hx. apply (done'_false s n s1 imm P) in Hx as [Hx Hne]. split; [apply (sp_other _ _ _ _ P x Hne)|exact Hx]. }
   destruct imm as [c|].
-  - destruct (IH s1 c s' e at_ (sf_Struct _ _ F1 HS) L1 H) as (-> & L' & F' & Hd' & Hu').
+  - destruct (IH s1 c s' e at_ (sf_Struct _ _ F1 HS) L1 H) as (-> & L' & F' & Hd' & Hu' & Hc').
     split; [reflexivity|]. split; [exact L'|]. split; [eapply sframe_trans; eauto|].
-    split; [|intros x Hx; destruct (Hu' x Hx) as [E1' Hx1]; destruct (Hu1 x Hx1) as [E2' Hx0]; split; congruence].
+    split; [|split; [intros x Hx; destruct (Hu' x Hx) as [E1' Hx1]; destruct (Hu1 x Hx1) as [E2' Hx0]; split; congruence|]];
+      [|intros C; apply Hc', (sp_cur _ _ _ _ P), C].
     intros x Hx. destruct (Hd' x Hx) as [Hx1|[->|Hna]].
     + destruct (Hd1 x Hx1); auto.
     + right. right. rewrite <- (sf_nkind _ _ F1).
@@ -1509,7 +1651,7 @@ Proof.
       destruct (isAlways (nkind (nd s1 c))); [discriminate|reflexivity].
     + right. right. rewrite <- (sf_nkind _ _ F1). exact Hna.
   - injection H as <- <- <-. split; [reflexivity|]. split; [exact L1|]. split; [exact F1|].
-    split; [|exact Hu1]. intros x Hx. destruct (Hd1 x Hx); auto.
+    split; [|split; [exact Hu1|exact (sp_cur _ _ _ _ P)]]. intros x Hx. destruct (Hd1 x Hx); auto.
 Qed.
 
 (** the list of Always nodes the loop has popped so far *)
@@ -1521,20 +1663,21 @@ Lemma loop_LInv h0 base fuel : forall s always s' e at_ always',
   Struct s -> LInv h0 base s None -> AlwaysOK s always ->
   passLoop fuel [] s always = Ok (s', e, at_, always') ->
   e = None /\ LInv h0 base s' None /\ Heap.ids (heap s') = [] /\ sframe s s' /\ AlwaysOK s' always' /\
-  (forall x, isDone s' x = false -> nd s' x = nd s x /\ isDone s x = false).
+  (forall x, isDone s' x = false -> nd s' x = nd s x /\ isDone s x = false) /\
+  (cursor_ok (heap s) -> cursor_ok (heap s')).
 Proof.
   induction fuel as [|fuel IH]; intros s always s' e at_ always' HS L HA H; [discriminate|].
   cbn [passLoop] in H. pose proof (proj1 (li_heap _ _ _ _ L)) as I.
   destruct (Z.leb_spec (Heap.cnt (heap s)) 0) as [Hc|Hc].
   { injection H as <- <- <- <-. split; [reflexivity|]. split; [exact L|].
-    split; [apply cnt_zero_ids; assumption|]. split; [apply sframe_refl|]. split; [exact HA|auto]. }
+    split; [apply cnt_zero_ids; assumption|]. split; [apply sframe_refl|]. split; [exact HA|]. split; auto. }
   destruct (Heap.removeMin (heap s)) as [[n w]|] eqn:Erm; [|discriminate].
   set (s2 := s <| heap := w |>) in *.
   set (always2 := if isAlways (nkind (nd s2 n)) then always ++ [n] else always) in *.
   destruct (recomputeChain fuel [] s2 n) as [[[s3 e3] at3]| |] eqn:E3; simpl in H; try discriminate.
   pose proof (pop_LInv h0 base s n w HS L Erm) as L2.
   assert (F2 : sframe s s2) by apply sframe_set_heap.
-  destruct (chain_LInv h0 base fuel s2 n s3 e3 at3 (sf_Struct _ _ F2 HS) L2 E3) as (-> & L3 & F3 & Hd3 & Hu3).
+  destruct (chain_LInv h0 base fuel s2 n s3 e3 at3 (sf_Struct _ _ F2 HS) L2 E3) as (-> & L3 & F3 & Hd3 & Hu3 & Hc3).
   assert (Hng : inGraph (nd s n) = true).
   { apply (li_orig _ _ _ _ L2 n). left. apply inW_iff; [apply (li_heap _ _ _ _ L2)|]. right; reflexivity. }
   assert (HA3 : AlwaysOK s3 always2).
@@ -1549,11 +1692,13 @@ Proof.
       destruct (isAlways (nkind (nd s n))) eqn:Ek; [|apply HA2, Hx].
       apply elem_of_app in Hx as [Hx|Hx]; [apply HA2, Hx|]. apply elem_of_list_singleton in Hx as ->. auto. }
   destruct (IH s3 always2 s' e at_ always' (sf_Struct _ _ F3 (sf_Struct _ _ F2 HS)) L3 HA3 H)
-    as (-> & L' & Hemp & F' & HA' & Hu').
+    as (-> & L' & Hemp & F' & HA' & Hu' & Hc').
   split; [reflexivity|]. split; [exact L'|]. split; [exact Hemp|].
   split; [eapply sframe_trans; [exact F2|]; eapply sframe_trans; eauto|]. split; [exact HA'|].
-  intros x Hx. destruct (Hu' x Hx) as [E1' Hx1]. destruct (Hu3 x Hx1) as [E2' Hx0].
-  split; [rewrite E1', E2'; reflexivity|exact Hx0].
+  split.
+  - intros x Hx. destruct (Hu' x Hx) as [E1' Hx1]. destruct (Hu3 x Hx1) as [E2' Hx0].
+    split; [rewrite E1', E2'; reflexivity|exact Hx0].
+  - intros _. apply Hc', Hc3. exact (cursor_removeMin _ _ _ I Erm).
 Qed.
 
 (** * I. The whole pass *)
@@ -1598,24 +1743,29 @@ Lemma requeue_spec always : forall s sR,
   requeueAlways always s = Ok sR ->
   only_heap s sR /\ hinv (heap sR) /\
   (forall x, x ∈ Heap.ids (heap sR) <-> x ∈ Heap.ids (heap s) \/ x ∈ always) /\
-  (forall x, x ∈ Heap.ids (heap sR) -> Heap.hinOf (heap sR) x = height (nd s x)).
+  (forall x, x ∈ Heap.ids (heap sR) -> Heap.hinOf (heap sR) x = height (nd s x)) /\
+  (cursor_ok (heap s) -> cursor_ok (heap sR)).
 Proof.
   induction always as [|a l IH]; intros s sR I Hh Hq H; unfold requeueAlways in H.
-  - injection H as <-. split; [apply only_heap_refl|]. split; [exact I|]. split; [|exact Hq].
+  - injection H as <-. split; [apply only_heap_refl|]. split; [exact I|]. split; [|split; [exact Hq|auto]].
     intros x. rewrite elem_of_nil. tauto.
   - rewrite rfold_cons in H. assert (Ha : 0 <= height (nd s a)) by (apply Hh; left).
     destruct (Z.eqb_spec (height (nd s a)) unset) as [E|_]; [unfold unset in E; lia|].
     destruct (heapAddIfNotPresent s a) as [s1| |] eqn:E1; simpl in H; try discriminate.
     destruct (heapAddIfNotPresent_spec s a s1 I Ha E1) as (O1 & I1 & M1 & Hin1).
     assert (Hnd1 : forall x, nd s1 x = nd s x) by (intros; apply (oh_nd _ _ O1)).
-    destruct (IH s1 sR I1) as (O2 & I2 & M2 & Hin2); [| |exact H|].
+    assert (Hc1 : cursor_ok (heap s) -> cursor_ok (heap s1)).
+    { intros C. unfold heapAddIfNotPresent in E1. destruct (inHeap s a); [injection E1 as <-; exact C|].
+      apply heapAdd_inv in E1 as (w1 & Ew1 & ->). exact (cursor_add _ _ _ _ I C Ew1). }
+    destruct (IH s1 sR I1) as (O2 & I2 & M2 & Hin2 & Hc2); [| |exact H|].
     + intros x Hx. rewrite Hnd1. apply Hh. right. exact Hx.
     + intros x Hx. rewrite Hin1, Hnd1. destruct (decide (x = a)) as [->|Hne].
       * destruct (inHeap s a) eqn:Ea; [apply Hq, inHeap_iff; assumption|reflexivity].
       * apply Hq. apply M1 in Hx as [?|?]; [contradiction|assumption].
     + split; [eapply only_heap_trans; eauto|]. split; [exact I2|]. split.
       * intros x. rewrite M2, M1, elem_of_cons. tauto.
-      * intros x Hx. rewrite Hin2 by exact Hx. rewrite Hnd1. reflexivity.
+      * split; [intros x Hx; rewrite Hin2 by exact Hx; rewrite Hnd1; reflexivity|].
+        intros C. apply Hc2, Hc1, C.
 Qed.
 
 Lemma requeue_only_heap always : forall s sR, requeueAlways always s = Ok sR -> only_heap s sR.
@@ -1733,7 +1883,8 @@ Record PassEnd (s s' sL : state) (hev : list event) : Prop := {
   pe_heap : hinv (heap s') /\
             (forall x, x ∈ Heap.ids (heap s') <->
                        inGraph (nd sL x) = true /\ isAlways (nkind (nd sL x)) = true) /\
-            (forall x, x ∈ Heap.ids (heap s') -> Heap.hinOf (heap s') x = height (nd sL x))
+            (forall x, x ∈ Heap.ids (heap s') -> Heap.hinOf (heap s') x = height (nd sL x)) /\
+            cursor_ok (heap s')
 }.
 
 Lemma pass_end s s' :
@@ -1752,10 +1903,10 @@ Proof.
   { split; [|intros x Hx; inv Hx]. intros x _ Hd. exfalso.
     pose proof (stamps_node_true _ _ (vi_stamps _ V x)). unfold isDone in Hd. apply Z.eqb_eq in Hd.
     change (recomputedAt (nd s x) = stabNum s) in Hd. lia. }
-  destruct (loop_LInv _ _ _ s1 [] sL None at_ always HS1 L1 HA1 EL) as (_ & LL & Hemp & FL & HAL & HuL).
+  destruct (loop_LInv _ _ _ s1 [] sL None at_ always HS1 L1 HA1 EL) as (_ & LL & Hemp & FL & HAL & HuL & HcL).
   pose proof (sf_Struct _ _ FL HS1) as HSL.
   pose proof (proj1 (li_heap _ _ _ _ LL)) as IL.
-  destruct (requeue_spec always sL sR IL) as (OR & IR & MR & HinR); [| |exact ER|].
+  destruct (requeue_spec always sL sR IL) as (OR & IR & MR & HinR & HcR); [| |exact ER|].
   { intros x Hx. apply (st_hnonneg _ HSL). apply (proj2 HAL x Hx). }
   { intros x Hx. rewrite Hemp in Hx. inv Hx. }
   assert (HsdL : setDuring sL = []) by (rewrite (sf_setDuring _ _ FL); exact Hsd).
@@ -1786,7 +1937,9 @@ Proof.
           destruct (nkind (nd sL x)); try discriminate Hk. reflexivity. }
         pose proof (li_owed _ _ _ _ LL x Hg Ed Hs) as Hw.
         apply (inW_iff sL None x IL) in Hw as [Hw|?]; [|discriminate]. rewrite Hemp in Hw. inv Hw.
-    + intros x Hx. rewrite HinR by exact Hx. reflexivity.
+    + split; [intros x Hx; rewrite HinR by exact Hx; reflexivity|].
+      apply HcR, HcL. destruct (wfb_all _ Hwf) as (_ & _ & _ & _ & _ & Hq & _).
+      unfold queued_ok in Hq. apply andb_true_iff in Hq as [Hq _]. exact (heap_inv_b_cursor _ Hq).
 Qed.
 
 (** * J. Consequences *)
@@ -1797,7 +1950,7 @@ Proof.
 Qed.
 
 Section End.
-  Context (s s' sL : state) (hev : list event) (E : PassEnd s s' sL hev).
+  Context (s s' sL : state) (hev : list event) (E : PassEnd s s' sL hev) (V : ValInv s).
   Let k := stabNum s.
   Let LL := pe_inv _ _ _ _ E.
   Let HSL := pe_struct _ _ _ _ E.
@@ -1917,6 +2070,11 @@ Section End.
     - exact end_BF.
     - intros n. unfold stamps_node. rewrite nd', Hk'. pose proof (stL n). fold k.
       rewrite !andb_true_iff, !Z.leb_le, Z.ltb_lt. lia.
+    - intros n Hg. rewrite nd' in *. assert (Hd : isDone sL n = false).
+      { destruct (isDone sL n) eqn:Ed; [|reflexivity].
+        destruct (li_orig _ _ _ _ LL n (or_intror Ed)) as [Hg' _]. congruence. }
+      rewrite (pe_untouched _ _ _ _ E n Hd). apply (vi_unreg _ V). rewrite <- Hg.
+      symmetry. rewrite <- (pe_untouched _ _ _ _ E n Hd). reflexivity.
     - intros n Hg Hs. rewrite nd' in Hg. rewrite end_isStale in Hs.
       apply inHeap_iff; [apply E|]. apply (proj1 (proj2 (pe_heap _ _ _ _ E))). split; [exact Hg|].
       rewrite (stale_is_always n Hg Hs). reflexivity.
@@ -2028,6 +2186,95 @@ Section End.
   Qed.
 End End.
 
+(** ** [wfb] after the pass: the structural clauses read only what the pass keeps *)
+Section WfbTransfer.
+  Context (s s' : state).
+  Context (Hsk : forall n, skel (nd s' n) = skel (nd s n)).
+  Context (Hhas : forall n, has s' n <-> has s n) (Hnext : next s' = next s).
+
+  Local Lemma wt_all : allNodes s' = allNodes s.
+  Proof.
+    unfold allNodes. rewrite Hnext. apply list_filter_iff. intros n. apply Hhas.
+  Qed.
+  Local Ltac pj f := intros n; exact (f_equal f (Hsk n)).
+  Local Lemma wt_parents : forall n, parents (nd s' n) = parents (nd s n). Proof. pj parents. Qed.
+  Local Lemma wt_children : forall n, children (nd s' n) = children (nd s n). Proof. pj children. Qed.
+  Local Lemma wt_observers : forall n, observers (nd s' n) = observers (nd s n). Proof. pj observers. Qed.
+  Local Lemma wt_inGraph : forall n, inGraph (nd s' n) = inGraph (nd s n). Proof. pj inGraph. Qed.
+  Local Lemma wt_height : forall n, height (nd s' n) = height (nd s n). Proof. pj height. Qed.
+  Local Lemma wt_hAdj : forall n, hAdj (nd s' n) = hAdj (nd s n). Proof. pj hAdj. Qed.
+  Local Lemma wt_valid : forall n, valid (nd s' n) = valid (nd s n). Proof. pj valid. Qed.
+  Local Lemma wt_decl : forall n, decl (nd s' n) = decl (nd s n). Proof. pj decl. Qed.
+  Local Lemma wt_scope : forall n, scope (nd s' n) = scope (nd s n). Proof. pj scope. Qed.
+  Local Lemma wt_forceNec : forall n, forceNec (nd s' n) = forceNec (nd s n). Proof. pj forceNec. Qed.
+  Local Lemma wt_nec n : isNecessary (nd s' n) = isNecessary (nd s n).
+  Proof. apply isNecessary_ext; [apply wt_forceNec|apply wt_children|apply wt_observers]. Qed.
+
+  Lemma wt_edges : edges_symmetric s' = edges_symmetric s.
+  Proof.
+    unfold edges_symmetric. rewrite wt_all. apply forallb_ext. intros c _.
+    rewrite wt_parents, wt_children. f_equal; apply forallb_ext; intros x _.
+    - rewrite wt_children. reflexivity.
+    - rewrite wt_parents. reflexivity.
+  Qed.
+
+  Lemma wt_nec_clause : registered_iff_necessary s' = registered_iff_necessary s.
+  Proof.
+    unfold registered_iff_necessary. rewrite wt_all. apply forallb_ext. intros n _.
+    rewrite wt_inGraph, wt_nec. reflexivity.
+  Qed.
+
+  Lemma wt_declared : parents_are_declared s' = parents_are_declared s.
+  Proof.
+    unfold parents_are_declared. rewrite wt_all. apply forallb_ext. intros n _.
+    rewrite wt_inGraph, wt_valid, wt_parents, wt_decl. reflexivity.
+  Qed.
+
+  Lemma wt_heights : maxHeight s' = maxHeight s -> heights_ordered s' = heights_ordered s.
+  Proof.
+    intros Hm. unfold heights_ordered. rewrite wt_all, Hm. apply forallb_ext. intros n _.
+    rewrite wt_inGraph, wt_height, wt_parents, wt_scope. f_equal. f_equal; [f_equal|].
+    - apply forallb_ext. intros p _. rewrite wt_height. reflexivity.
+    - unfold scopeHeight. destruct (scope (nd s n)); [rewrite wt_height|]; reflexivity.
+  Qed.
+
+  Lemma wt_counts : reg s' = reg s -> obs s' = obs s -> numNodes s' = numNodes s ->
+    counts_ok s' = counts_ok s.
+  Proof.
+    intros Hr Ho Hn. unfold counts_ok. rewrite wt_all, Hr, Ho, Hn. f_equal. f_equal. f_equal.
+    apply bool_decide_ext. split; intros ->; apply list_filter_iff; intros n; rewrite wt_inGraph; reflexivity.
+  Qed.
+
+  Lemma wt_observers_clause : obs s' = obs s -> observers_ok s' = observers_ok s.
+  Proof.
+    intros Ho. unfold observers_ok. rewrite wt_all, Ho. f_equal.
+    - apply forallb_ext. intros n _. rewrite wt_observers. reflexivity.
+    - apply forallb_ext. intros [o n] _. rewrite wt_observers. reflexivity.
+  Qed.
+
+  Lemma wt_unreg : unregistered_zeroed s = true ->
+    (forall n, inHeap s' n = true -> inGraph (nd s' n) = true) -> unregistered_zeroed s' = true.
+  Proof.
+    intros H Hq. unfold unregistered_zeroed in *. rewrite wt_all. apply forallb_intro. intros n Hn.
+    pose proof (forallb_elem _ _ _ H Hn) as Hb. cbv beta zeta in Hb |- *.
+    rewrite wt_inGraph, wt_parents, wt_children, wt_observers, wt_height.
+    destruct (inGraph (nd s n)) eqn:Eg; [reflexivity|]. simpl in *.
+    rewrite !andb_true_iff in Hb. rewrite !andb_true_iff. destruct Hb as [[[[H1 H2] H3] H4] _].
+    repeat split; try assumption. apply negb_true_iff. destruct (inHeap s' n) eqn:Eh; [|reflexivity].
+    specialize (Hq n Eh). rewrite wt_inGraph in Hq. congruence.
+  Qed.
+
+  Lemma wt_transients :
+    transients_empty s = true -> adj s' = adj s -> invq s' = invq s -> status s' = 0 ->
+    setDuring s' = [] -> setRemoved s' = [] -> handlers s' = [] -> transients_empty s' = true.
+  Proof.
+    intros H Ha Hi Hst Hsd Hsr Hh. unfold transients_empty in *. rewrite wt_all, Ha, Hi, Hst, Hsd, Hsr, Hh.
+    rewrite !andb_true_iff in H. destruct H as [[[[[[[H1 H2] _] _] _] _] H7] H8].
+    rewrite !andb_true_iff. repeat split; try assumption; try reflexivity.
+    erewrite forallb_ext; [exact H7|]. intros n _. rewrite wt_forceNec, wt_hAdj. reflexivity.
+  Qed.
+End WfbTransfer.
+
 (** * K. The pass theorems *)
 
 (** C02: every function invocation of the pass saw the values its inputs hold when the pass
@@ -2048,7 +2295,7 @@ Theorem pass_consistent s s' :
   consistent s' = true /\ ValInv s'.
 Proof.
   intros Hwf V H. destruct (pass_end s s' Hwf V H) as (sL & hev & E).
-  split; [exact (end_consistent s s' sL hev E)|exact (end_ValInv s s' sL hev E)].
+  split; [exact (end_consistent s s' sL hev E)|exact (end_ValInv s s' sL hev E V)].
 Qed.
 
 (** the frame of the pass: the graph structure is constant *)
@@ -2069,6 +2316,32 @@ Proof.
   rewrite (sf_binds _ _ F), (sf_next _ _ F), (sf_reg _ _ F), (sf_obs _ _ F), (sf_adj _ _ F), (sf_invq _ _ F),
     (sf_numNodes _ _ F), (sf_maxHeight _ _ F).
   repeat split; try assumption. apply E.
+Qed.
+
+(** the structural invariant after the pass *)
+Theorem pass_wfb s s' :
+  wfb s = true -> ValInv s -> stabilize [] false s = Ok (s', None) -> wfb s' = true.
+Proof.
+  intros Hwf V H. destruct (pass_structure_const s s' Hwf V H)
+    as (Hsk & Hhas & Hb & Hn & Hr & Ho & Ha & Hi & Hnn & Hm & _ & Hst & Hh & Hsd & Hsr).
+  destruct (pass_end s s' Hwf V H) as (sL & hev & E).
+  destruct (wfb_all _ Hwf) as (W1 & W2 & W3 & W4 & W5 & W6 & W7 & W8 & W9 & W10).
+  destruct (pe_heap _ _ _ _ E) as (IR & MR & HinR & CR).
+  assert (Hnd' : forall n, nd s' n = nd sL n) by (apply nodes_eq_nd, E).
+  apply wfb_intro.
+  - rewrite (wt_edges s s' Hsk Hhas Hn). exact W1.
+  - apply (wt_unreg s s' Hsk Hhas Hn W2). intros n Hq. apply inHeap_iff in Hq; [|exact IR].
+    rewrite Hnd'. apply MR, Hq.
+  - rewrite (wt_nec_clause s s' Hsk Hhas Hn). exact W3.
+  - rewrite (wt_declared s s' Hsk Hhas Hn). exact W4.
+  - rewrite (wt_heights s s' Hsk Hhas Hn Hm). exact W5.
+  - unfold queued_ok. apply andb_true_iff. split; [apply heap_inv_b_complete; assumption|].
+    apply forallb_intro. intros x Hx. rewrite Hnd'. apply andb_true_iff. split; [apply MR, Hx|].
+    apply Z.eqb_eq, HinR, Hx.
+  - rewrite (wt_counts s s' Hsk Hhas Hn Hr Ho Hnn). exact W7.
+  - apply (wt_transients s s' Hsk Hhas Hn W8 Ha Hi Hst Hsd Hsr Hh).
+  - rewrite (wt_observers_clause s s' Hsk Hhas Hn Ho). exact W9.
+  - unfold binds_ok. rewrite Hb, (proj1 (vi_bf _ V)), map_to_list_empty. reflexivity.
 Qed.
 
 (** the loop-level form of the frame lemma *)
@@ -2137,12 +2410,16 @@ Proof.
   destruct (forallb (stamps_node s true) (allNodes s)) eqn:H1; [|discriminate H].
   destruct (forallb _ (allNodes s)) eqn:H2 in H; [|discriminate H].
   destruct (forallb _ (allNodes s)) eqn:H3 in H; [|discriminate H].
+  destruct (forallb _ (allNodes s)) eqn:H4 in H; [|discriminate H].
   clear H. pose proof (bf_b_sound s Hbf) as HBF.
   assert (Hall : forall n, has s n -> n ∈ allNodes s) by (intros n; apply (bf_allNodes s HBF)).
   constructor.
   - exact HBF.
   - intros n. destruct (decide (has s n)) as [Hn|Hn]; [apply (forallb_elem _ _ _ H1 (Hall n Hn))|].
     unfold stamps_node. rewrite (not_has_nd s n Hn). simpl. apply Z.ltb_lt. lia.
+  - intros n Hg. destruct (decide (has s n)) as [Hn|Hn]; [|rewrite (not_has_nd s n Hn); auto].
+    pose proof (forallb_elem _ _ _ H4 (Hall n Hn)) as Hb. cbv beta in Hb. rewrite Hg in Hb. simpl in Hb.
+    apply andb_true_iff in Hb as [Ha Hb]. apply Z.eqb_eq in Ha, Hb. auto.
   - intros n Hg Hs. pose proof (forallb_elem _ _ _ H2 (Hall n (has_inGraph _ _ Hg))) as Hb. cbv beta in Hb.
     rewrite Hg, Hs in Hb. exact Hb.
   - intros n Hg Hq Hgd. pose proof (forallb_elem _ _ _ H3 (Hall n (has_inGraph _ _ Hg))) as Hb. cbv beta in Hb.
@@ -2211,3 +2488,44 @@ Qed.
 
 Lemma ex_pre_hyps : wfb ex_pre = true /\ ValInv ex_pre.
 Proof. split; [vm_compute; reflexivity|apply valinv_b_sound; vm_compute; reflexivity]. Qed.
+
+(** * O. From local consistency to the from-scratch semantics (SpecProofs, Theorem A) *)
+From incr Require Import SpecProofs.
+
+Lemma BF_notLhs s a : BF s -> notLhs s a = true.
+Proof.
+  intros HBF. unfold notLhs. pose proof (bf_kind s HBF a) as H. destruct (nkind (nd s a)); try reflexivity.
+  discriminate H.
+Qed.
+
+Lemma BF_closed s : BF s -> closed s = true /\ templates_ok s = true.
+Proof.
+  intros HBF. split.
+  - unfold closed. apply andb_true_iff. split.
+    + apply forallb_intro. intros [n x] Hx. apply elem_of_map_to_list in Hx.
+      pose proof (proj2 HBF n x Hx) as Hb. apply bf_node_iff in Hb as (H1 & H2 & _ & _ & _ & _ & H7).
+      unfold node_closed. apply andb_true_iff. split; [apply Nat.ltb_lt; exact H1|].
+      unfold always_lt in H7. destruct (nkind x); try discriminate H2;
+        try (apply forallb_intro; intros a _; apply BF_notLhs; exact HBF).
+      destruct (decl x) as [|a [|]]; try discriminate H7. rewrite H7. apply BF_notLhs. exact HBF.
+    + apply forallb_intro. intros [o n] _. apply BF_notLhs. exact HBF.
+  - unfold templates_ok. rewrite (proj1 HBF), map_to_list_empty. reflexivity.
+Qed.
+
+(** C01 for the pass: every observer reads the from-scratch value of the node it observes *)
+Theorem pass_observers_agree s s' :
+  wfb s = true -> ValInv s -> stabilize [] false s = Ok (s', None) -> observers_agree s' = true.
+Proof.
+  intros Hwf V H. destruct (pass_consistent s s' Hwf V H) as [Hc V'].
+  destruct (BF_closed s' (vi_bf _ V')) as [Hcl Htp].
+  exact (C01_observers_agree_proof s' (pass_wfb s s' Hwf V H) Hcl Htp Hc).
+Qed.
+
+Theorem pass_all s s' :
+  wfb s = true -> ValInv s -> stabilize [] false s = Ok (s', None) ->
+  consistent s' = true /\ wfb s' = true /\ ValInv s' /\ observers_agree s' = true.
+Proof.
+  intros Hwf V H. destruct (pass_consistent s s' Hwf V H) as [Hc V'].
+  split; [exact Hc|]. split; [exact (pass_wfb s s' Hwf V H)|]. split; [exact V'|].
+  exact (pass_observers_agree s s' Hwf V H).
+Qed.
